@@ -1310,14 +1310,15 @@ func (t *TableCache) ApplyCacheUpdate(update cacheUpdate) error {
 				if err != nil {
 					return err
 				}
-				t.eventProcessor.AddEvent(updateEvent, table, old, new)
+				// old is the object the cache held: readers may still be looking at it
+				t.eventProcessor.AddEvent(updateEvent, table, model.Clone(old), new)
 			case new == nil:
 				t.logger.V(5).Info("deleting model", "table", table, "uuid", uuid, "model", old)
 				err := tCache.Delete(uuid)
 				if err != nil {
 					return err
 				}
-				t.eventProcessor.AddEvent(deleteEvent, table, old, nil)
+				t.eventProcessor.AddEvent(deleteEvent, table, model.Clone(old), nil)
 			}
 			return nil
 		})
